@@ -315,18 +315,29 @@ func randomModule(r *core.RNG, nPkgs, nTypes, pShadow int) *Input {
 	}
 	// entrypoints
 	switch k := r.Intn(10); {
-	case k < 3:
+	case k < 2:
 		in.Entry = []string{"..."}
-	case k < 5:
+	case k < 3: // overlapping patterns
+		in.Entry = []string{"...", dirOrDot(in.Pkgs[0].Dir)}
+	case k < 4:
 		in.Entry = []string{dirOrDot(in.Pkgs[len(in.Pkgs)-1].Dir)}
-	default:
+	default: // several entrypoints, in a shuffled order (at least two when there are two packages)
 		for _, p := range in.Pkgs {
-			if r.Chance(70) {
+			if r.Chance(75) {
+				in.Entry = append(in.Entry, dirOrDot(p.Dir))
+			}
+		}
+		for _, p := range in.Pkgs {
+			if len(in.Entry) < 2 && len(in.Pkgs) >= 2 && !contains(in.Entry, dirOrDot(p.Dir)) {
 				in.Entry = append(in.Entry, dirOrDot(p.Dir))
 			}
 		}
 		if len(in.Entry) == 0 {
 			in.Entry = []string{dirOrDot(in.Pkgs[0].Dir)}
+		}
+		for i := len(in.Entry) - 1; i > 0; i-- {
+			j := r.Intn(i + 1)
+			in.Entry[i], in.Entry[j] = in.Entry[j], in.Entry[i]
 		}
 	}
 	in.All = r.Chance(70)
@@ -340,6 +351,15 @@ func randomModule(r *core.RNG, nPkgs, nTypes, pShadow int) *Input {
 		in.PrevSum = in.PkgPath(0) + " h1:AAAAAAAAAAAAAAAAAAAAAAAAAAAAAAAAAAAAAAAAAAA=\nexample.com/gone h1:BBBB=\n"
 	}
 	return in
+}
+
+func contains(xs []string, x string) bool {
+	for _, y := range xs {
+		if y == x {
+			return true
+		}
+	}
+	return false
 }
 
 func dirOrDot(d string) string {
@@ -433,7 +453,10 @@ func corner() []*Input {
 		[]GenSpec{{Name: "rec", Script: map[string]FragSpec{"0/0": {Outcome: "render", Decls: []string{"func", "bad"}}}}})
 	bad3 := one([]ObjSpec{{Kind: "alias", Name: "T", Target: "NoSuchType", Doc: enable("rec")}},
 		[]GenSpec{{Name: "rec", Script: map[string]FragSpec{"0/0": render}}})
-	out = append(out, bad1, bad2, bad3)
+	bad4 := one([]ObjSpec{{Kind: "struct", Name: "T", Doc: enable("rec")}},
+		[]GenSpec{{Name: "rec", Script: map[string]FragSpec{"0/0": render}}})
+	bad4.Entry = []string{"a", "nosuchdir"}
+	out = append(out, bad1, bad2, bad3, bad4)
 	return out
 }
 
@@ -463,7 +486,7 @@ func (prop) Generate(r *core.RNG, tr string) []json.RawMessage {
 	}
 	n := 26
 	if tr == "thorough" {
-		n = 120
+		n = 200
 	}
 	for i := 0; i < n; i++ {
 		var in *Input
@@ -473,12 +496,14 @@ func (prop) Generate(r *core.RNG, tr string) []json.RawMessage {
 		case k < 5:
 			in = randomModule(r, 2+r.Intn(3), 8, 30)
 		case k < 7: // no shadowing at all
-			in = randomModule(r, 1+r.Intn(3), 10, 0)
+			in = randomModule(r, 2+r.Intn(2), 10, 0)
 		case k < 9:
-			in = randomModule(r, 1+r.Intn(2), 5, 60)
+			in = randomModule(r, 1+r.Intn(3), 5, 60)
 		default: // malformed stream
 			in = randomModule(r, 1+r.Intn(2), 5, 10)
-			switch r.Intn(3) {
+			switch r.Intn(4) {
+			case 3: // an entrypoint that does not exist: NewContext fails in every process
+				in.Entry = append(in.Entry, "nosuchdir")
 			case 0:
 				for k, f := range in.Gens[0].Script {
 					f.Outcome = "err"
